@@ -511,7 +511,7 @@ Proof.
   destruct (Z.of_nat (length (t_groups t)) <=? 1); [done|].
   destruct (h_cnt h <? 2); [done|].
   destruct Hok as (_ & _ & _ & _ & Hp1 & Hp2).
-  set (prefer0 := filter _ (t_groups t)). set (usable0 := filter _ (t_groups t)).
+  set (prefer0 := filter (λ g, is_prefer _) (t_groups t)). set (usable0 := filter (λ g, is_usable _) (t_groups t)).
   specialize (Hp1 h usable0 prefer0).
   destruct (o_cgprefer o h usable0 prefer0) as [pref l1]; simpl in Hp1.
   specialize (Hp2 h pref usable0).
@@ -525,3 +525,246 @@ Proof.
 Qed.
 
 End cg_proofs.
+
+(* ================================================================ allocate, AllocateCpus, ReleaseCpus *)
+Section top.
+Context (t : topo) (o : orders) (prefer : prio) (Hwf : topo_wf t) (Hok : orders_ok o).
+
+Lemma inv_cnt_le f0 c0 h : inv f0 c0 h -> c0 <= sz f0 -> h_cnt h <= sz (h_from h).
+Proof.
+  intros (Hd & Hu & Hc & Hn) Hle. rewrite <- Hu, sz_union_disj in Hle by done. lia.
+Qed.
+
+Lemma inv_from_sub f0 c0 h : inv f0 c0 h -> h_from h ⊆ f0.
+Proof. intros (Hd & Hu & _). set_solver. Qed.
+
+Lemma allocate_inv flags f0 c0 h : inv f0 c0 h -> f0 ⊆ online t -> c0 <= sz f0 ->
+  inv f0 c0 (allocate t o prefer flags h) ∧ h_cnt (allocate t o prefer flags h) = 0.
+Proof.
+  intros Hi Hon Hle. unfold allocate.
+  set (h1 := if fl_packages flags then _ else h).
+  assert (H1 : inv f0 c0 h1).
+  { unfold h1. destruct (fl_packages flags); [by apply take_idle_packages_inv|done]. }
+  set (h2 := if 1 <? t_nkinds t then _ else _).
+  assert (H2 : inv f0 c0 h2).
+  { unfold h2. destruct (1 <? t_nkinds t).
+    - set (h1' := if (0 <? h_cnt h1) && fl_clusters flags then _ else h1).
+      assert (inv f0 c0 h1').
+      { unfold h1'. destruct ((0 <? h_cnt h1) && fl_clusters flags); [by apply take_idle_clusters_inv|done]. }
+      destruct ((0 <? h_cnt h1') && fl_cgroups flags); [by apply take_cache_groups_inv|done].
+    - destruct ((0 <? h_cnt h1) && fl_cgroups flags); [by apply take_cache_groups_inv|done]. }
+  set (h3 := if (0 <? h_cnt h2) && fl_cores flags then _ else h2).
+  assert (H3 : inv f0 c0 h3).
+  { unfold h3. destruct ((0 <? h_cnt h2) && fl_cores flags); [by apply take_idle_cores_inv|done]. }
+  destruct (0 <? h_cnt h3) eqn:E.
+  - apply Z.ltb_lt in E. destruct (take_idle_threads_inv t o Hwf Hok f0 c0 h3 H3 E) as [H4 H5].
+    split; [done|]. apply H5.
+    + etrans; [by eapply inv_from_sub|done].
+    + by eapply inv_cnt_le.
+  - apply Z.ltb_ge in E. split; [done|]. destruct H3 as (_ & _ & _ & ?). lia.
+Qed.
+
+(* allocating cnt <= |from| CPUs returns exactly cnt CPUs taken from the set and removes
+   exactly those from it *)
+Lemma alloc_contract flags from cnt :
+  from ⊆ online t -> 0 <= cnt <= sz from ->
+  ∃ r lvl, allocate_cpus t o prefer flags from cnt = (Ok r, from ∖ r, lvl) ∧ r ⊆ from ∧ sz r = cnt.
+Proof.
+  intros Hon [H0 Hle]. unfold allocate_cpus.
+  destruct (sz from <? cnt) eqn:E1; [apply Z.ltb_lt in E1; lia|].
+  destruct (sz from =? cnt) eqn:E2.
+  { apply Z.eqb_eq in E2. exists from, 0%N. split; [|done]. f_equal. f_equal. set_solver. }
+  set (h0 := Helper from cnt ∅ 0).
+  assert (Hi0 : inv from cnt h0).
+  { unfold inv, h0; simpl. rewrite sz_empty. split; [set_solver|]. split; [set_solver|lia]. }
+  destruct (allocate_inv flags from cnt h0 Hi0 Hon Hle) as [(Hd & Hu & Hc & Hn) Hz].
+  set (h := allocate t o prefer flags h0) in *.
+  rewrite Hz. cbn [Z.eqb]. exists (h_res h), (h_lvl h). split; [|split; [set_solver|lia]].
+  f_equal. f_equal. apply set_eq. intros x. rewrite <- Hu. set_solver.
+Qed.
+
+(* a request for more CPUs than the set holds fails and leaves the set unchanged
+   (no well-formedness or order assumption needed) *)
+Lemma alloc_too_many (t' : topo) (o' : orders) p flags from cnt :
+  sz from < cnt -> allocate_cpus t' o' p flags from cnt = (Err, from, 0%N).
+Proof. intros H. unfold allocate_cpus. apply Z.ltb_lt in H. by rewrite H. Qed.
+
+Lemma alloc_all (t' : topo) (o' : orders) p flags from :
+  allocate_cpus t' o' p flags from (sz from) = (Ok from, ∅, 0%N).
+Proof. unfold allocate_cpus. by rewrite Z.ltb_irrefl, Z.eqb_refl. Qed.
+
+(* ReleaseCpus(from, n), n <= |from|: afterwards *from holds exactly n CPUs of the original set
+   (the released ones) and the returned set is the rest *)
+Lemma release_contract flags from n :
+  from ⊆ online t -> 0 <= n <= sz from ->
+  ∃ kept rel lvl, release_cpus t o prefer flags from n = (Ok kept, rel, lvl) ∧
+    rel ⊆ from ∧ sz rel = n ∧ kept = from ∖ rel ∧ sz kept = sz from - n.
+Proof.
+  intros Hon Hn. unfold release_cpus.
+  destruct (alloc_contract flags from (sz from - n) Hon) as (r & lvl & Heq & Hsub & Hsz); [lia|].
+  exists r, (from ∖ r), lvl. split; [done|]. split; [set_solver|].
+  split; [|split; [|done]].
+  - pose proof (sz_split from r Hsub). lia.
+  - apply set_eq. intros x. destruct (decide (x ∈ r)); set_solver.
+Qed.
+
+End top.
+
+(* the online hypothesis is necessary: with offline CPUs in the candidate set the allocator can
+   return success with an empty result after having removed CPUs from the set *)
+Definition ex_topo : topo :=
+  Topo [CpuInfo 0 0 {[0%N]}; CpuInfo 1 0 ∅; CpuInfo 2 0 ∅] {[1%N; 2%N]} [(0, {[0%N]})] ∅ {[0%N]} ∅ 1 [] [].
+Definition id_orders : orders :=
+  Orders (λ _ l, (l, 0%N)) (λ _ l, (l, 0%N)) (λ _ l, (l, 0%N)) (λ _ l, (l, 0%N)) (λ _ _ l, (l, 0%N)) (λ _ _ l, (l, 0%N)).
+
+Lemma id_orders_ok : orders_ok id_orders.
+Proof. repeat split; intros; intros l; reflexivity. Qed.
+
+Lemma ex_topo_wf : topo_wf ex_topo.
+Proof. apply (bool_decide_unpack _). vm_compute. exact I. Qed.
+
+Local Instance outcome_eq_dec : EqDecision outcome.
+Proof. solve_decision. Defined.
+
+Lemma alloc_offline_refuted :
+  ∃ t o p flags from cnt, topo_wf t ∧ orders_ok o ∧ 0 <= cnt <= sz from ∧
+    allocate_cpus t o p flags from cnt = (Ok ∅, {[1%N; 2%N]}, 0%N) ∧ cnt = 2 ∧ from = {[0%N; 1%N; 2%N]}.
+Proof.
+  exists ex_topo, id_orders, Normal, alloc_default, {[0%N; 1%N; 2%N]}, 2.
+  split; [apply ex_topo_wf|]. split; [apply id_orders_ok|].
+  split; [by vm_compute|]. split; [|done].
+  apply (bool_decide_unpack _). vm_compute. exact I.
+Qed.
+
+(* ================================================================ the modelled Go orders are permutations *)
+Lemma ins_rev_perm {A} (less : A -> A -> bool) x rp : ins_rev less x rp ≡ₚ x :: rp.
+Proof.
+  induction rp as [|y r IH]; cbn [ins_rev]; [done|].
+  destruct (less x y); [|done]. rewrite IH. apply perm_swap.
+Qed.
+
+Lemma isort_fold_perm {A} (less : A -> A -> bool) l : ∀ acc,
+  fold_left (λ rp x, ins_rev less x rp) l acc ≡ₚ l ++ acc.
+Proof.
+  induction l as [|x l IH]; intros acc; cbn [fold_left]; [done|].
+  rewrite IH, ins_rev_perm. symmetry. apply Permutation_middle.
+Qed.
+
+Lemma isort_perm {A} (less : A -> A -> bool) l : isort less l ≡ₚ l.
+Proof. unfold isort. rewrite <- Permutation_rev, isort_fold_perm. by rewrite app_nil_r. Qed.
+
+Lemma sort_by_perm {A K} (key : A -> K) kless l : (sort_by key kless l).1 ≡ₚ l.
+Proof.
+  unfold sort_by; cbn [fst]. rewrite isort_perm.
+  rewrite <- list_fmap_compose. induction l; simpl; [done|]. by constructor.
+Qed.
+
+Lemma go_orders_ok t p : orders_ok (go_orders t p).
+Proof. repeat split; intros; intros l; apply sort_by_perm. Qed.
+
+(* ================================================================ determinism *)
+(* A candidate list on which the comparator is asymmetric and which admits a strongly sorted
+   arrangement has exactly one sorted permutation: any sorting algorithm returns it. *)
+Section unique.
+Context {A : Type} (less : A -> A -> bool).
+
+Lemma forcedb_spec l : forcedb less l = true ->
+  StronglySorted (λ a b, less a b = true ∧ less b a = false) l.
+Proof.
+  induction l as [|x r IH]; cbn [forcedb]; [constructor|].
+  rewrite andb_true_iff, forallb_forall. intros [Hx Hr]. constructor; [by apply IH|].
+  apply Forall_forall. intros y Hy. apply elem_of_list_In in Hy. specialize (Hx y Hy).
+  apply andb_true_iff in Hx as [? ?%negb_true_iff]. done.
+Qed.
+
+(* a result [l2] of a correct sort: a permutation in which no element is less than its predecessor *)
+Lemma sorted_perm_unique l1 l2 :
+  forcedb less l1 = true -> l2 ≡ₚ l1 -> Sorted (λ a b, less b a = false) l2 -> l2 = l1.
+Proof.
+  intros Hf Hperm Hs. apply forcedb_spec in Hf.
+  (* positions in l1 *)
+  assert (Hlt : ∀ i j a b, (i < j)%nat -> l1 !! i = Some a -> l1 !! j = Some b -> less a b = true ∧ less b a = false).
+  { clear -Hf. induction Hf as [|x r Hr IH Hx]; intros i j a b Hij Hi Hj; [by rewrite lookup_nil in Hi|].
+    destruct i as [|i], j as [|j]; try lia; simpl in *.
+    - injection Hi as <-. rewrite Forall_forall in Hx. apply Hx. by eapply elem_of_list_lookup_2.
+    - eapply IH; [|exact Hi|exact Hj]. lia. }
+  assert (Hnd : NoDup l1).
+  { apply NoDup_alt. intros i j a Hi Hj. destruct (Nat.lt_trichotomy i j) as [H|[H|H]]; [|done|].
+    - destruct (Hlt i j a a H Hi Hj) as [H1 H2]. congruence.
+    - destruct (Hlt j i a a H Hj Hi) as [H1 H2]. congruence. }
+  set (pos := λ a b, ∃ i j, (i < j)%nat ∧ l1 !! i = Some a ∧ l1 !! j = Some b).
+  assert (Htr : Transitive pos).
+  { intros a b c (i & j & Hij & Hi & Hj) (j' & k & Hjk & Hj' & Hk).
+    assert (j = j') as <- by (eapply NoDup_lookup; eauto). exists i, k. split; [lia|done]. }
+  assert (Has : AntiSymm (=) pos).
+  { intros a b (i & j & Hij & Hi & Hj) (j' & i' & Hji & Hj' & Hi').
+    assert (j = j') as <- by (eapply NoDup_lookup; eauto).
+    assert (i = i') as <- by (eapply NoDup_lookup; eauto). lia. }
+  assert (H1 : StronglySorted pos l1).
+  { clear -Hnd. unfold pos. clear pos.
+    assert (G : ∀ pre, StronglySorted (λ a b, ∃ i j, (i < j)%nat ∧ (pre ++ l1) !! i = Some a ∧ (pre ++ l1) !! j = Some b) l1).
+    { induction l1 as [|x r IH]; intros pre; [constructor|].
+      constructor.
+      - specialize (IH ltac:(by apply NoDup_cons in Hnd as [_ ?]) (pre ++ [x])).
+        rewrite <- !app_assoc in IH. exact IH.
+      - apply Forall_forall. intros y Hy. apply elem_of_list_lookup in Hy as [k Hk].
+        exists (length pre), (length pre + S k)%nat. split; [lia|]. split.
+        + by rewrite lookup_app_r, Nat.sub_diag by lia.
+        + rewrite lookup_app_r by lia. replace (length pre + S k - length pre)%nat with (S k) by lia. done. }
+    exact (G []). }
+  assert (H2 : Sorted pos l2).
+  { assert (Hnd2 : NoDup l2) by (by rewrite Hperm).
+    assert (Hsub : ∀ x, x ∈ l2 -> x ∈ l1) by (intros x; by rewrite Hperm).
+    clear H1 Hperm. induction Hs as [|x r Hs IH Hhd]; [constructor|].
+    apply NoDup_cons in Hnd2 as [Hnx Hnd2].
+    constructor.
+    - apply IH; [done|]. intros y Hy. apply Hsub. by right.
+    - destruct Hhd as [|y r' Hxy]; constructor.
+      assert (Hx : x ∈ l1) by (apply Hsub; left).
+      assert (Hy : y ∈ l1) by (apply Hsub; right; left).
+      apply elem_of_list_lookup in Hx as [i Hi]. apply elem_of_list_lookup in Hy as [j Hj].
+      destruct (Nat.lt_trichotomy i j) as [H|[H|H]].
+      + exists i, j. done.
+      + subst j. assert (x = y) by congruence. subst y.
+        exfalso. apply Hnx. left.
+      + destruct (Hlt j i y x H Hj Hi) as [Hyx _]. congruence. }
+  symmetry. eapply (Sorted_unique pos); [|done|by symmetry].
+  by apply StronglySorted_Sorted.
+Qed.
+End unique.
+
+(* the package and core comparators (cmpCPUSet(.., prefer, -1), then id) are strict total orders
+   on keys with distinct ids, for every topology and preference *)
+Ltac dz :=
+  repeat match goal with
+  | |- context [?x =? ?y] => destruct (Z.eqb_spec x y)
+  | |- context [?x <? ?y] => destruct (Z.ltb_spec x y)
+  | H : context [?x =? ?y] |- _ => destruct (Z.eqb_spec x y)
+  | H : context [?x <? ?y] |- _ => destruct (Z.ltb_spec x y)
+  end; cbn [negb] in *; try done; try lia.
+
+Lemma set_less_irrefl p a : set_less p a a = false.
+Proof.
+  destruct a as [[[ah an] al] ai], p; unfold set_less, cmp_counts, favor, repel, prios_from, prios_below, cnt_at;
+    cbn [fst snd Z.ltb Z.compare andb bool_decide]; dz.
+Qed.
+
+Lemma set_less_trans p a b c : set_less p a b = true -> set_less p b c = true -> set_less p a c = true.
+Proof.
+  destruct a as [[[ah an] al] ai], b as [[[bh bn] bl] bi], c as [[[ch cn] cl] ci], p;
+    unfold set_less, cmp_counts, favor, repel, prios_from, prios_below, cnt_at;
+    cbn [fst snd Z.ltb Z.compare andb bool_decide]; dz.
+Qed.
+
+Lemma set_less_total p a b : a.2 ≠ b.2 -> set_less p a b = true ∨ set_less p b a = true.
+Proof.
+  destruct a as [[[ah an] al] ai], b as [[[bh bn] bl] bi], p;
+    unfold set_less, cmp_counts, favor, repel, prios_from, prios_below, cnt_at;
+    cbn [fst snd Z.ltb Z.compare andb bool_decide]; intros Hne; dz; auto.
+Qed.
+
+Lemma set_less_asym p a b : set_less p a b = true -> set_less p b a = false.
+Proof.
+  intros H. destruct (set_less p b a) eqn:E; [|done].
+  pose proof (set_less_trans p a b a H E). by rewrite set_less_irrefl in H0.
+Qed.
